@@ -284,6 +284,10 @@ def run_multi(rep, op, tier):
     tags = ["a_dint", "an_ary{4}", "a_udt"]
     # all vectors over `vals` for 2 and 3 services, and every status byte next to a good service (in front of and behind it)
     vectors = [v for n in (2, 3) for v in itertools.product(vals, repeat=n)] + [v for s in range(1, 256) if s not in vals for v in ((0, s), (s, 0))]
+    if op == "read":
+        # -1: the member's reply is only its 4-byte header (status 0, no type code, no data): too short to hold a value, whatever follows it in the packet
+        vectors += [v for n in (2, 3) for v in itertools.product((0, -1), repeat=n) if -1 in v] + [(-1, 5), (5, -1), (-1, 0xFF, 0)]
+    clean = None
     for n in (0,):
         for vec in vectors:
             n = len(vec)
@@ -296,6 +300,8 @@ def run_multi(rep, op, tier):
                 if info.get("max_reply", 0) >= 10**8 and req.service in (0x4C, 0x4D):
                     state["i"] += 1
                     s = vec[state["i"] % len(vec)]
+                    if s == -1:
+                        return (0, [], b"")
                     if s:
                         return (s, [0x2105] if s == 0xFF else [], b"")
                 return None
@@ -314,8 +320,17 @@ def run_multi(rep, op, tier):
             elif not isinstance(out[1], list) or len(out[1]) != n:
                 probs.append(("shape", f"{out[1]!r:.100}"))
             else:
+                if op == "read" and clean is None and all(x == 0 for x in vec) and all(bool(g) for g in out[1]):
+                    clean = [g.value for g in out[1]] + [None] * 3
                 for i, (g, s) in enumerate(zip(out[1], vec)):
-                    if s == 0 and not bool(g):
+                    if s == -1:
+                        if bool(g):
+                            probs.append(("short-reply-accepted", f"service #{i} answered with a bare header (status 0, no data) but its Tag is truthy: {g!r:.80}"))
+                        elif not (isinstance(g.error, str) and g.error):
+                            probs.append(("empty-error", f"service #{i} answered with a bare header: falsy Tag without an error text"))
+                    elif s == 0 and op == "read" and bool(g) and clean is not None and -1 in vec and clean[i] is not None and g.value != clean[i]:
+                        probs.append(("neighbour-value", f"service #{i} (status 0) next to a bare-header reply returned {g.value!r:.60}, the tag holds {clean[i]!r:.60}"))
+                    elif s == 0 and not bool(g):
                         probs.append(("success-rejected", f"service #{i} had status 0 but its Tag is falsy: {g!r:.80}"))
                     elif s not in (0, 6) and bool(g):
                         probs.append(("error-accepted", f"service #{i} had status {s:#04x} but its Tag is truthy"))
